@@ -84,8 +84,7 @@ Inductive target :=
 | TgLeaf.                          (* something without members: an element of built-in type, an attribute *)
 
 Inductive designation :=
-| DTargets (ts : list target)      (* [] = the name is unknown *)
-| DBadPrefix                       (* unknown because its prefix is not declared *)
+| DTargets (ts : list target)      (* [] = the name is unknown (also: its prefix is not declared) *)
 | DNoClaim.                        (* outside the property: built-ins, paths through wildcards / enumeration values *)
 
 Definition target_of_tref (ty : tref) : target :=
@@ -109,7 +108,7 @@ Definition is_type (W : wsdl) (q : qn) : bool :=
 
 Definition root_targets (W : wsdl) (r : root_form) : designation :=
   match root_uri W r with
-  | None => DBadPrefix
+  | None => DTargets []              (* undeclared prefix: an unknown name *)
   | Some u =>
       if starts_with w3_prefix u then DNoClaim else
       match lookup_uri W u, lookup_name W (root_name r) with
@@ -333,7 +332,6 @@ Definition target_ok (tg : target) (v : pv) : bool :=
 Definition outcome_ok (d : designation) (r : result) : bool :=
   match d with
   | DNoClaim => true
-  | DBadPrefix => match r with RTypeNotFound => true | ROther => negb strict | _ => false end
   | DTargets [] => match r with RTypeNotFound => true | _ => false end
   | DTargets ts => match r with ROk v => existsb (fun tg => target_ok tg v) ts | _ => false end
   end.
@@ -356,6 +354,25 @@ Fixpoint nodupb (l : list key) : bool :=
    attributes share a name: "Element Declarations Consistent" of XSD *)
 Definition wf_names (W : wsdl) : bool :=
   forallb (fun t => nodupb (ordering (all_items W t))) (w_types W).
+
+(* no required, non-repeating member has an enumeration type (where the
+   unchanged code pre-builds a Property {value = None} instead of None:
+   known finding C03:enum-member-prebuilt-as-property) *)
+Definition enum_member (W : wsdl) (d : edecl) : bool :=
+  negb (e_multi d) && negb (e_opt d) &&
+  match e_type d with
+  | TNamed ns n => match find_named W (ns, n) with
+                   | Some (SSimple _ _ (_ :: _)) => true
+                   | _ => false
+                   end
+  | TBuiltin => false
+  end.
+
+Definition no_enum_members (W : wsdl) : bool :=
+  forallb (fun t => forallb (fun it => match it with
+                                       | FE _ _ d ch _ => ch || negb (enum_member W d)
+                                       | _ => true
+                                       end) (all_items W t)) (w_types W).
 
 (* every type reference of a declaration names a declared type *)
 Definition tref_ok (W : wsdl) (ty : tref) : bool :=
